@@ -169,11 +169,14 @@ theorem pins_on_success_sharded (c : Cfg) (stream : List Blk) (fin : Option Nat)
       cdp.cid = cd ∧ cdp.type = .clusterDagT ∧ cdp.depth = 0 ∧ cdp.ref = some (run c stream fin).root ∧
       cdp.opts.rmin = -1 ∧ cdp.opts.rmax = -1 ∧ cdp.allocs = [] ∧
       mp.cid = (run c stream fin).root ∧ mp.type = .metaT ∧ mp.ref = some cd ∧
-      mp.opts = { c.opts with mode := .recursive } := by
+      mp.opts = { c.opts with mode := .recursive } ∧
+      -- mode and depth agree on both (what the stored protobuf form needs to read back unchanged)
+      cdp.opts.mode = .direct ∧ depthToMode cdp.depth = cdp.opts.mode ∧ depthToMode mp.depth = mp.opts.mode := by
   obtain ⟨_, h⟩ := shOut c stream fin hwf hs hstop
   obtain ⟨cd, hcd, hpins⟩ := h.ok hok
-  refine ⟨cd, _, _, hcd, hpins, fun r hr => (h.shards r hr).1.type, ?_, ?_, ?_, ?_, ?_, ?_, ?_, ?_, ?_, ?_, ?_⟩ <;>
-    simp [sentPin_cid, sentPin_type, sentPin_depth, sentPin_ref, sentPin_opts, sentPin_allocs, cdagPin, metaPin, workOpts]
+  refine ⟨cd, _, _, hcd, hpins, fun r hr => (h.shards r hr).1.type, ?_, ?_, ?_, ?_, ?_, ?_, ?_, ?_, ?_, ?_, ?_, ?_, ?_, ?_⟩ <;>
+    simp [sentPin_cid, sentPin_type, sentPin_depth, sentPin_ref, sentPin_opts, sentPin_allocs, cdagPin, metaPin, workOpts,
+      modeToDepth, depthToMode]
 
 /-- The shard links, in order, are exactly the stream without repetitions: each block in one shard. -/
 theorem shards_partition (c : Cfg) (stream : List Blk) (fin : Option Nat) (hwf : wf c stream = true)
